@@ -433,3 +433,147 @@ RULES = [
     ("C11.RR", rk_reserved),
     ("C11.R1", r1_escape_tables),
 ]
+
+
+# ---------------------------------------------------------------------------------------------------------
+# RP: re-parse leg.  The exported text is loaded into a small model of gffutils' FeatureDB (assumption: attributes
+# are unescaped, comma-split lists; children / parents follow the Parent attribute; region() filters by type in file
+# order) and the library's own _parse_genes is interpreted on it.
+# ---------------------------------------------------------------------------------------------------------
+
+class GFeature:
+    _interp_native_ = True
+
+    def __init__(self, d, idx):
+        self.id = next(iter(d["attrs"]["ID"]))
+        self.chrom = self.seqid = d["seqid"]
+        self.featuretype = d["type"]
+        self.start, self.end = d["start"], d["end"]
+        self.strand = d["strand"]
+        self.frame = d["phase"]
+        # gffutils keeps values as lists in file order
+        self.attributes = {k: list(v) if not isinstance(v, list) else v for k, v in d["ordered_attrs"].items()}
+        self.idx = idx
+
+    def __repr__(self):
+        return f"<Feature {self.featuretype} {self.start}-{self.end} {self.id}>"
+
+
+class GDB:
+    _interp_native_ = True
+
+    def __init__(self, lines):
+        self.features = []
+        for i, ln in enumerate(lines):
+            d = decode_row(ln)
+            cols = ln.split("\t")
+            oa = {}
+            for pair in cols[8].split(";"):
+                k, v = pair.split("=", 1)
+                oa.setdefault(unescape(k), []).extend(unescape(x) for x in v.split(","))
+            d["ordered_attrs"] = oa
+            self.features.append(GFeature(d, i))
+        self.by_id = {f.id: f for f in self.features}
+
+    def region(self, seqid=None, featuretype=None, **kw):
+        types = [featuretype] if isinstance(featuretype, str) else list(featuretype or [])
+        return iter([f for f in self.features if f.seqid == seqid and (not types or f.featuretype in types)])
+
+    def parents(self, f, level=None, **kw):
+        f = self.by_id[f] if isinstance(f, str) else f
+        return iter([self.by_id[p] for p in f.attributes.get("Parent", []) if p in self.by_id])
+
+    def children(self, f, level=None, **kw):
+        f = self.by_id[f] if isinstance(f, str) else f
+        return iter([c for c in self.features if f.id in c.attributes.get("Parent", [])])
+
+    def featuretypes(self):
+        return iter(sorted({f.featuretype for f in self.features}))
+
+
+def _reparse_case(repo, it, S, spec):
+    which, = spec
+    out = []
+    q_ac = "gene.collections:AnnotationCollection.to_gff"
+    pq = "io.gff3.parser:_parse_genes"
+    ms = [m for i, m in enumerate(models_for_reparse()) if i in which]
+    par = chrom_parent(it, GENOME, alphabet="NT_EXTENDED")
+    objs = [build(it, S, par, m) for m in ms]
+    ac = mk_collection(it, objs, None, sequence_name="chr1", parent_or_seq_chunk_parent=par)
+    k, v = run(it, repo.fn(q_ac), [], {}, ac)
+    if k != "ok":
+        return 1, [("export", f"re-parse {which}: to_gff raises {v}", q_ac)]
+    lines = [it.py_str(r) for r in it.iterate(v)]
+    db = GDB(lines)
+    k, genes = run(it, repo.fn(pq), ["chr1", db], {}, None)
+    if k != "ok":
+        return 1, [("re-parse", f"re-parse {which}: _parse_genes raises {genes} on the exported text", pq)]
+    if len(genes) != len(ms):
+        return 1, [("gene count", f"re-parse {which}: {len(genes)} genes parsed from an export of {len(ms)}", pq)]
+    by_id = {g.get("gene_id"): g for g in genes}
+    for m in ms:
+        g = by_id.get(m["gene_id"])
+        desc = f"gene {m['gene_id']!r}"
+        if g is None:
+            out.append(("gene id", f"{desc} not recovered; parsed ids {sorted(map(str, by_id))}", pq))
+            continue
+        for key, want in (("gene_symbol", m["gene_symbol"]), ("locus_tag", m["locus_tag"]), ("gene_type", m["gene_type"])):
+            if g.get(key) != want:
+                out.append((f"gene {key}", f"{desc}: re-parsed {key} = {g.get(key)!r}; exported {want!r}", pq))
+        if len(g["transcripts"]) != len(m["transcripts"]):
+            out.append(("transcript count", f"{desc}: {len(g['transcripts'])} transcripts re-parsed, {len(m['transcripts'])} exported", pq))
+            continue
+        txs = {t.get("transcript_id"): t for t in g["transcripts"]}
+        for t in m["transcripts"]:
+            p = txs.get(t["transcript_id"])
+            td = f"{desc} transcript {t['transcript_id']}"
+            if p is None:
+                out.append(("transcript id", f"{td}: not recovered", pq))
+                continue
+            if list(zip(p["exon_starts"], p["exon_ends"])) != [tuple(b) for b in t["exons"]] or p["strand"] != t["strand"]:
+                out.append(("exons", f"{td}: re-parsed exons {list(zip(p['exon_starts'], p['exon_ends']))} {p['strand']}; exported {t['exons']} {t['strand']}", pq))
+            if t["cds"]:
+                fr = consistent_frames(t["cds"], t["strand"], t["start_frame"])
+                names = [["ZERO", "ONE", "TWO"][x] for x in fr]
+                if list(zip(p["cds_starts"] or [], p["cds_ends"] or [])) != [tuple(b) for b in t["cds"]] or p["cds_frames"] != names:
+                    out.append(("CDS blocks and frames", f"{td}: re-parsed CDS {list(zip(p['cds_starts'] or [], p['cds_ends'] or []))} frames {p['cds_frames']}; exported {t['cds']} {names}", "io.gff3.parser:_convert_features_to_transcript"))
+            elif p["cds_starts"]:
+                out.append(("CDS blocks and frames", f"{td}: a CDS appeared on a non-coding transcript", pq))
+            for key, want in (("transcript_symbol", t["transcript_symbol"]), ("protein_id", t["protein_id"] if t["cds"] else None),
+                              ("product", t["product"] if t["cds"] else None)):
+                if key in (m["qualifiers"] or {}):
+                    continue  # the gene carries a free qualifier of the same name: the merged row is ambiguous by construction
+                if want is not None and p.get(key) != want and not ("," in str(want)):
+                    out.append((f"transcript {key}", f"{td}: re-parsed {key} = {p.get(key)!r}; exported {want!r}", pq))
+            wt = t["transcript_type"]
+            if p.get("transcript_type") != (wt if wt else m["gene_type"]):
+                out.append(("transcript biotype", f"{td}: re-parsed transcript_type = {p.get('transcript_type')!r}; exported {wt!r} (gene type {m['gene_type']!r})", pq))
+            # free qualifiers survive up to documented lower-casing of keys
+            wq = {k2 if k2 in GFF3_KEEP_CASE else k2.lower(): sorted(set().union(*[vals(x) for x in v2])) for k2, v2 in (t["qualifiers"] or {}).items()}
+            gq = p.get("qualifiers") or {}
+            for k2, v2 in wq.items():
+                if k2 in ("note", "product"):
+                    continue  # merged with gene-level values / reserved by the exporter
+                if sorted(gq.get(k2, [])) != v2:
+                    out.append(("transcript qualifiers", f"{td}: qualifier {k2!r} re-parsed as {gq.get(k2)}; exported {v2}", "io.gff3.parser:filter_and_sort_qualifiers"))
+    return len(lines), out
+
+
+def models_for_reparse():
+    ms = [m for m in models() if m["kind"] == "gene"]
+    # a gene whose transcript has another biotype than the gene
+    ms.append(dict(kind="gene", gene_id="G3", gene_symbol="g3", gene_type="protein_coding", locus_tag="L3", qualifiers=None,
+                   transcripts=[dict(exons=[(42, 48)], strand="PLUS", cds=None, transcript_id="T6", transcript_symbol="t6",
+                                     transcript_type="lncRNA", protein_id=None, product=None, qualifiers=None)]))
+    return ms
+
+
+def rp_reparse(ctx):
+    from ..par import pmap
+    results = pmap(_runner(ctx.repo, _reparse_case), [((0,),), ((1,),), ((2,),), ((0, 1, 2),)], min_items=2)
+    _report(ctx, "C11.RP", results, [("io.gff3.parser:_parse_genes", "exported genes are recovered from the exported text"),
+                                     ("io.gff3.parser:_convert_features_to_transcript", "exons, CDS blocks, frames, strand"),
+                                     ("io.gff3.parser:filter_and_sort_qualifiers", "free qualifiers survive")])
+
+
+RULES.append(("C11.RP", rp_reparse))
